@@ -668,6 +668,11 @@ ssize_t __wrap_read(int fd, void *buf, size_t n)
   int k = next_k(F_read);
   trec *t = rec(F_read, k, fd, (long) n, 0);
   int e = fault_for(F_read, k, t);
+  if (e == 50000) {
+    // short transfer: the kernel hands over less than was asked for (legal for pipes)
+    if (n > 1) n = n / 2;
+    e = 0;
+  }
   if (e) {
     t->ret = -1;
     errno = e;
@@ -701,6 +706,11 @@ ssize_t __wrap_write(int fd, const void *buf, size_t n)
   int k = next_k(F_write);
   trec *t = rec(F_write, k, fd, (long) n, 0);
   int e = fault_for(F_write, k, t);
+  if (e == 50000) {
+    // short transfer: only part of the buffer is accepted (legal for pipes, usual after a signal)
+    if (n > 1) n = n / 2;
+    e = 0;
+  }
   if (e) {
     t->ret = -1;
     errno = e;
